@@ -519,6 +519,39 @@ theorem prefee_covers {bps maxFee post pre f : Int} (hb0 : 0 ≤ bps) (hb1 : bps
             have hfle : f ≤ (raw * bps + 10000 - 1) / 10000 := by rw [← hf, er]; exact min_le_left _ _
             nlinarith
 
+/-- well-formed transfer-fee configuration: what the token program itself accepts (bps ≤ 10000) -/
+def FeeCfgOk (c : FeeCfg) : Prop :=
+  0 ≤ c.olderBps ∧ c.olderBps ≤ 10000 ∧ 0 ≤ c.olderMax ∧ 0 ≤ c.newerBps ∧ c.newerBps ≤ 10000 ∧ 0 ≤ c.newerMax
+
+/-- **mint_prefee_covers**: the same at the level of the MINT, in every epoch — before, exactly at and after the activation
+    of a scheduled fee change: the pre-fee amount marginfi computes for the mint (`calculate_pre_fee_spl_deposit_amount`), minus
+    what the token program withholds from that transfer in that epoch (`calculate_epoch_fee`: the newer fee FROM its activation
+    epoch on), is at least the amount booked. Both sides are tied to the code by the `tf.mint` lines of the tokenfee family: the
+    real helpers and the real token program's arithmetic on really laid-out mint accounts. -/
+theorem mint_prefee_covers {m : Mint} {epoch post pre f : Int} (hp : 0 ≤ post)
+    (hm : ∀ c, m = .t22fee c → FeeCfgOk c)
+    (h : mintPre m epoch post = some pre) (hf : mintFee m epoch pre = some f) : post ≤ pre - f := by
+  cases m with
+  | spl => simp [mintPre] at h; simp [mintFee] at hf; omega
+  | t22 => simp [mintPre] at h; simp [mintFee] at hf; omega
+  | t22fee c =>
+    obtain ⟨a1, a2, a3, a4, a5, a6⟩ := hm c rfl
+    simp only [mintPre] at h
+    simp only [mintFee] at hf
+    unfold epochFee at h hf
+    by_cases he : epoch ≥ c.newerEpoch
+    · simp only [he, ↓reduceIte] at h hf
+      exact prefee_covers a4 a5 a6 hp h hf
+    · simp only [he, ↓reduceIte] at h hf
+      exact prefee_covers a1 a2 a3 hp h hf
+
+/-- the epoch rule is inclusive: in the activation epoch itself the NEWER fee is the one in force -/
+theorem epoch_fee_inclusive (c : FeeCfg) : epochFee c c.newerEpoch = (c.newerBps, c.newerMax) := by
+  simp [epochFee]
+
+example : mintPre (.t22fee { olderBps := 100, olderMax := 1000000, newerEpoch := 500, newerBps := 500, newerMax := 1000000 }) 500 1000 = some 1053 := by decide
+example : mintPre (.t22fee { olderBps := 100, olderMax := 1000000, newerEpoch := 500, newerBps := 500, newerMax := 1000000 }) 499 1000 = some 1011 := by decide
+
 /-! ### non-vacuity -/
 def demoBank : Bank :=
   { asv := ONE + 12345, lsv := ONE + 999, sa := 1000 * ONE, sl := 10 * ONE, feeI := 0, feeG := 0, feeP := 0,
